@@ -202,3 +202,5 @@ def run(ctx):
     r34(ctx)
     r5(ctx)
     r6(ctx)
+    # R7 GEOMETRY (= C16.R1/R2, C15.R1/R2): a wrong table entry makes the generator emit a move that leaves the position invalid
+    tables_dep(ctx, 'C05.R7', ['movegen::movegen::MoveGen::new_legal', 'board::Board::make_move', 'board::Board::make_move_new'])
